@@ -481,19 +481,21 @@ func (s *recordingSpan) End(options ...trace.SpanEndOption) {
 		s.addEvent(semconv.ExceptionEventName, opts...)
 	}
 
-	if s.executionTracerTaskEnd != nil {
-		s.mu.Unlock()
-		s.executionTracerTaskEnd()
-		s.mu.Lock()
-	}
-
 	// Setting endTime to non-zero marks the span as ended and not recording.
 	if config.Timestamp().IsZero() {
 		s.endTime = et
 	} else {
 		s.endTime = config.Timestamp()
 	}
+	taskEnd := s.executionTracerTaskEnd
 	s.mu.Unlock()
+
+	// End the execution tracer task outside of the lock, but only after the
+	// span has been marked as ended: releasing the lock before endTime is set
+	// lets a concurrent End pass the isRecording check as well.
+	if taskEnd != nil {
+		taskEnd()
+	}
 
 	sps := s.tracer.provider.getSpanProcessors()
 	if len(sps) == 0 {
